@@ -15,6 +15,11 @@ type Quarantine struct {
 	mu      sync.Mutex
 	regions []qregion
 	Unmaps  int
+	// Max bounds the number of regions kept inaccessible (0 = unbounded); beyond
+	// it the oldest region is really unmapped, so that code under test that
+	// maps and unmaps in a loop does not exhaust the process's mapping quota
+	// (which would end the loop with ENOMEM and hide that it is unbounded).
+	Max int
 }
 
 type qregion struct {
@@ -36,7 +41,15 @@ func (q *Quarantine) Unmap(b []byte, label string) error {
 	q.mu.Lock()
 	q.regions = append(q.regions, qregion{b: full, start: start, end: start + uintptr(len(full)), Label: label})
 	q.Unmaps++
+	var evict []byte
+	if q.Max > 0 && len(q.regions) > q.Max {
+		evict = q.regions[0].b
+		q.regions = q.regions[1:]
+	}
 	q.mu.Unlock()
+	if evict != nil {
+		syscall.Munmap(evict)
+	}
 	return syscall.Mprotect(full, syscall.PROT_NONE)
 }
 
